@@ -601,6 +601,43 @@ func checkC15(r *Result) {
 		}
 		r.check(len(sites) >= 1, "ABI-VALUES", "sites where a *big.Int is stored inside a loop of the bridge keeper", "-", fmt.Sprint(len(sites)))
 	}
+	// the encoders are functions of their arguments: the bridge keeper package holds no package-level state (a shared
+	// hasher or buffer is reached from the block executor and from query / simulation goroutines at the same time)
+	{
+		var state []string
+		for _, sp := range P.RepoPkgs {
+			if sp.Pkg.Path() != modPath+"/x/bridge/keeper" {
+				continue
+			}
+			for name, m := range sp.Members {
+				g, ok := m.(*ssa.Global)
+				if !ok || name == "_" || strings.HasPrefix(name, "init$") {
+					continue
+				}
+				// interface-satisfaction assertions (`var _ I = T{}`) have the blank name; anything else is state
+				referenced := false
+				for _, fn := range P.RepoFuncs {
+					if fn.Pkg != sp {
+						continue
+					}
+					for _, b := range fn.Blocks {
+						for _, in := range b.Instrs {
+							for _, op := range in.Operands(nil) {
+								if *op == ssa.Value(g) {
+									referenced = true
+								}
+							}
+						}
+					}
+				}
+				if referenced {
+					state = append(state, name+" "+typeShort(g.Type()))
+				}
+			}
+		}
+		sort.Strings(state)
+		r.check(len(state) == 0, "ABI-VALUES", "x/bridge/keeper holds no package-level variable that its functions use (encoders share nothing between goroutines)", "-", fmt.Sprint(state))
+	}
 	r.minCount("ABI-VALUES", 2)
 	r.minCount("ABI-TYPES", 9)
 	r.minCount("ABI-ROLES", 6)
